@@ -17,11 +17,11 @@ PROPS = {
         level='proof',
         verus=['span', 'patterns', 'lexing', 'url', 'edit_distance', 'mask', 'document'],
         kani_quick=['lexing.whitespace_5', 'jsdoc.parse_inline_tag_4', 'jsdoc.parse_inline_tag_5'],
-        rac=['document_tiles', 'markdown_tokens', 'comment_frontends'],
+        rac=['document_tiles', 'remove_indices', 'condense_indices', 'markdown_tokens', 'comment_frontends'],
         kani_thorough=['lexing.whitespace_5', 'lexing.whitespace_8', 'lexing.hex_4', 'lexing.hostname_4', 'lexing.url_4', 'lexing.email_4',
                        'jsdoc.parse_inline_tag_4', 'jsdoc.parse_inline_tag_5', 'jsdoc.parse_inline_tag_6'],
         unverified=[
-            'every rule body (match_to_lint / lint of ~290 rules), LintGroup::lint, Document::parse condensing passes',
+            'every rule body (match_to_lint / lint of ~290 rules); LintGroup::lint, Document::parse as a whole and its pattern-based passes (contractions, ellipsis, latin), match_quotes, articles_imply_nouns: covered by the bounded RAC stand-ins only',
             'all front-ends that wrap an external parser: Markdown (pulldown-cmark), tree-sitter comment extraction, Typst, HTML, Literate Haskell, git commit parser, javadoc/go/unit comment parsers',
             'Pattern impls not under contract (assumed to satisfy the trait contract): AnyCapitalization, WordSet, ImpliesQuantity, IsNotTitleCase, SplitCompoundWord, SimilarToPhrase, WhitespacePattern, TokenKindPatternGroup, WordPatternGroup, NaivePatternGroup, WithinEditDistance, the blanket impl for Fn(&Token,&[char])->bool',
             'polynomial running time (no cost model); only termination of the listed loops is proved',
@@ -29,6 +29,7 @@ PROPS = {
         ],
         assumptions=[LEXER_BOUNDED,
                      'VecExt::remove_indices contract assumed in Verus (checked by bounded-rac under C13)',
+                     'Document passes: preconditions sum of whitespace counts <= usize::MAX and token count + 4 <= usize::MAX (machine assumptions)',
                      'jsdoc parse_inline_tag harnesses are bounded (token sequences of length <= 6, 6 token kinds): bounded, not proved; mark_inline_tags is unverified (a Kani harness for it crashes kani-compiler 0.68)'],
     ),
     'C02': dict(
@@ -36,9 +37,9 @@ PROPS = {
         verus=['lexing', 'url', 'number', 'mask', 'document'],
         kani_quick=['lexing.whitespace_5'],
         kani_thorough=['lexing.whitespace_5', 'lexing.whitespace_8', 'lexing.hex_4', 'lexing.hostname_4', 'lexing.url_4', 'lexing.email_4'],
-        rac=['document_tiles', 'condense_indices', 'markdown_tokens'],
+        rac=['document_tiles', 'remove_indices', 'condense_indices', 'markdown_tokens'],
         unverified=[
-            'Document::parse condensing passes (condense_spaces/newlines/contractions/dotted_initialisms/number_suffixes/ellipsis/latin, match_quotes): not under contract in this round',
+            'tiling preservation is PROVED for condense_spaces, condense_dotted_initialisms, condense_number_suffixes (the latter modulo the condense_indices contract: peekable() body, bounded-rac); condense_newlines (safety only: it does not preserve tiling on Newline Newline X Newline), condense_contractions/ellipsis/latin (thread_local patterns), match_quotes, newlines_to_breaks and Document::parse as a whole are covered by the bounded stand-in rac:document_tiles only',
             'every front-end other than plain English (Markdown byte/char bookkeeping, Mask::parse, CollapseIdentifiers, IsolateEnglish, comment parsers, HTML, Typst, LHS, git commit)',
             'lexical shape of Word tokens (no whitespace inside) and the numeric value of Number tokens (lex_number: str::parse::<f64>)',
             'which Punctuation variant a punctuation token carries (Punctuation::from_char is verified panic-free only)',
@@ -76,21 +77,21 @@ PROPS = {
     ),
     'C13': dict(
         level='proof',
-        verus=['overlaps'],
+        verus=['overlaps', 'overlaps32'],
         kani_quick=[], kani_thorough=[],
         rac=['remove_indices'],
         unverified=[
             'VecExt::remove_indices body (Vec::retain with a stateful closure): contract assumed in Verus, executed exhaustively for every length <= 12 and every strictly increasing index list (bounded-rac, not proved)',
             'callers in harper-wasm / harper-cli / currency_placement.rs and that lints handed to remove_overlaps have start <= end (the precondition)',
         ],
-        assumptions=['<[T]>::sort_by_key returns a permutation sorted by the closure key (assume_specification); lexicographic Ord on (usize, usize); size_of usize == 8 (needed for `!0 == usize::MAX`)',
+        assumptions=['<[T]>::sort_by_key returns a permutation sorted by the closure key (assume_specification); lexicographic Ord on (usize, usize); the unit is verified twice, with size_of usize == 8 and == 4 (wasm32), because `!0 == usize::MAX` is a bit-vector fact',
                      'desugaring R1 and the closure annotation of the sort key closure'],
     ),
     'C15': dict(
         level='proof',
         verus=['edit_distance', 'merged_dictionary'],
         kani_quick=[], kani_thorough=[],
-        rac=['fuzzy_backends'],
+        rac=['fuzzy_backends', 'edit_distance_long'],
         unverified=[
             'agreement of the FST and mutable back-ends; MergedDictionary *_str variants (contains_exact_word_str delegates to contains_word: visible by reading, not decided), fuzzy_match merging, words_iter, word_count, get_word_from_id; fuzzy-search completeness, ordering and caps (fst / levenshtein_automata / hashbrown / itertools code)',
             'strings longer than 254 chars: edit_distance_min_alloc is proved only under that precondition; at 255 its u8 rows overflow, above 255 it indexes out of bounds (D5); call sites (MutableDictionary::fuzzy_match, WithinEditDistance::matches) are not under contract',
@@ -99,7 +100,7 @@ PROPS = {
     ),
     'C17': dict(
         level='proof',
-        verus=['number'],
+        verus=['number', 'number_lint', 'document'],
         kani_quick=['number.suffix_full_domain', 'number.from_chars_roundtrip'],
         kani_thorough=['number.suffix_full_domain', 'number.from_chars_roundtrip'],
         rac=['number_suffix_rule'],
